@@ -282,6 +282,18 @@ class Term:
         p = c.get('res') or c.get('fn')
         return strip_turbofish(p) if p else None
 
+    def callee_best(self):
+        """resolved path when it resolves to a workspace item, otherwise the generic path"""
+        if self.k != 'call':
+            return None
+        c = self.func.const
+        if c is None:
+            return None
+        if c.get('res') and c.get('res_local'):
+            return strip_turbofish(c['res'])
+        p = c.get('fn')
+        return strip_turbofish(p) if p else None
+
     def callee_trait(self):
         c = self.func.const if self.func is not None else None
         return c.get('trait') if c else None
